@@ -30,5 +30,33 @@ claim("C19", "proof",
       ASSUME + "Tree.from_swc is an assumed contract (returns the tree of that file); directory walking (os.walk), Populations.from_swc matching and Population.map (process pool) are bounded only.",
       "DESIGN.md §3 C19, §9")
 
-for _p in ("C01", "C02", "C03", "C04", "C05", "C07", "C08", "C10", "C11", "C14", "C15", "C16", "C17", "C18", "C20"):
-    na(_p, "check under construction in this session; not yet claimed")
+claim("C18", "proof",
+      "DisjointSetUnion (__init__, find_parent with termination measure, is_same_set, union_sets: whole partition view = generated equivalence, rank unconstrained) against an abstract "
+      "representative map; reset_index_ and mark_roots_as_somas_ (first root kept, single root, every edge and attribute kept) on a pandas model; is_bifurcate "
+      "(loop invariants over the children map, result <-> no node has more than two children, roots exempt on request) are proved for tables of any size." + BOUNDED,
+      ASSUME + "has_cyclic, is_sorted, get_dsu/is_single_root, link_roots_to_nearest_ and read_swc's repair dispatch are bounded only (every table <= 4 nodes, union scripts, forests x id bases x repair modes).",
+      "DESIGN.md §3 C18, §9")
+
+BONLY = ("No function of this property is under a discharged contract yet: the check is the bounded stand-in only (run-time evaluation of the contract clauses named in evidence on the REAL "
+         "functions over the enumerated scope stated in evidence.coverage.bounded.rule, with independent oracles); it is labelled bounded and nothing is counted as proved. ")
+claim("C02", "other",
+      "FileReader.__exit__ is proved never to suppress an exception (the `with` rule makes parse_swc's ValueError/UnicodeDecodeError propagate); the line grammar, malformed-line rejection at every position, "
+      "decoding failures and option combinations are decided by the bounded stand-in on the real reader against an independent reference reader.",
+      ASSUME + "parse_swc's regex loop is not under contract (string theory): bounded only.", "DESIGN.md §3 C02, §9")
+for _p, _what in (
+    ("C01", "whole Tree.to_swc -> Tree.from_swc round trips over all trees <= 5 nodes x offsets x source kinds x comment lists x float corner values"),
+    ("C03", "pipelines of the tree-to-tree operations over small trees with snapshot / np.shares_memory / well-formedness oracles after every step"),
+    ("C04", "recording callbacks on all trees <= 7 nodes and all start nodes, chains of 10^5 nodes under the default recursion limit"),
+    ("C05", "all numberings of all trees <= 6 nodes incl. non-contiguous ids, root anywhere, extra columns, idempotence"),
+    ("C07", "all pairs of small trees x junction nodes x translate modes; all new roots"),
+    ("C08", "all sorted parent tables <= 8 nodes: branch partition, paths, tips, furcations, branch tree"),
+    ("C10", "all trees <= 6 nodes on an integer lattice against an independent implementation of the definitions; populations"),
+    ("C11", "random rigid motions, scalings and renumberings of small and random trees, all features compared"),
+    ("C14", "collinear chains / two-arm roots on a parameter grid against numeric quadrature of the union; levels 1-2 on arbitrary trees"),
+    ("C15", "documents generated from the ASC grammar to depth 4 against a reference converter; every truncation, single-point corruptions, 5000-point branch"),
+    ("C16", "resampler/smoother on all trees <= 6 nodes x spacings x root types and hand-made degenerate branches against a polyline oracle"),
+    ("C17", "lattice and random point clouds against Kruskal (MST length), per-step greedy-choice replay, furcation caps"),
+    ("C20", "TIFF/NRRD/NPY round trips over shapes x dtypes x patterns; rasterisation of small trees against an independent round-cone SDF"),
+):
+    TECHNIQUE[_p] = TECH_B
+    claim(_p, "other", BONLY + "Scope: " + _what + ".", "everything is bounded (small scope, real code); external libraries (numpy, pandas, tifffile, pynrrd, sdflit) trusted.", "DESIGN.md §3 " + _p + ", §9")
